@@ -23,10 +23,10 @@ func VerifUploadIDConfined() { verifUploadFlow(false) }
 func VerifFindingUploadIDDotDot() { verifUploadFlow(true) }
 
 func verifUploadFlow(finding bool) {
-	t := httputil.KseLayout()
+	t := httputil.KseLayout(false)
 	cas, err := store.NewCAStore(store.CAStoreConfig{
-		UploadDir:     t.Roots[0],
-		CacheDir:      t.Roots[1],
+		UploadDir:     t.Dir(0),
+		CacheDir:      t.Dir(1),
 		UploadCleanup: store.CleanupConfig{Disabled: true},
 		CacheCleanup:  store.CleanupConfig{Disabled: true},
 	}, tally.NoopScope)
